@@ -117,6 +117,11 @@ func vhC07AnnouncedTooLarge() {
 	if expect {
 		head += "Expect: 100-continue\r\n"
 	}
+	multipart := vBool("multipartContentType")
+	if multipart {
+		// a form the server would pre-parse: the limit comes first all the same
+		head += "Content-Type: multipart/form-data; boundary=b\r\n"
+	}
 	nn := vConc(n) // the announced size is written into the head: one path per value
 	var first string
 	if chunked {
@@ -160,7 +165,83 @@ func vhC07AnnouncedTooLarge() {
 		vAssert("oversized-announcement-not-dispatched", dispatched == 0)
 		vAssert("data-beyond-the-limit-is-not-pulled-off-the-connection", c.next <= 1)
 		vAssert("connection-closed", c.closed == 1)
-	} else {
+	} else if !multipart {
+		// (the data is not a well-formed form: with the multipart content type
+		// the server may refuse it as malformed instead)
 		vAssert("body-within-limit-dispatched", dispatched == 1)
+	}
+}
+
+// vhC07PerRequestLimit: HeaderReceived raises the limit for one kind of
+// request (/up) and returns nothing for the others. Two requests on one
+// keep-alive connection, in either order, fixed-length or chunked: each body
+// is held against the limit that applies to *its* request — the raised limit
+// of an earlier request does not carry over, nor does the server-wide limit
+// apply to the request that raised it.
+func vhC07PerRequestLimit() {
+	const serverLimit, raised = 3, 9
+	s := &Server{NoDefaultDate: true, NoDefaultServerHeader: true, MaxRequestBodySize: serverLimit}
+	s.HeaderReceived = func(h *RequestHeader) RequestConfig {
+		if string(h.RequestURI()) == "/up" {
+			return RequestConfig{MaxRequestBodySize: raised}
+		}
+		return RequestConfig{}
+	}
+	var got []string
+	maxHeld := map[string]int{}
+	s.Handler = func(ctx *RequestCtx) {
+		p := string(ctx.Path())
+		got = append(got, p)
+		if n := len(ctx.PostBody()); n > maxHeld[p] {
+			maxHeld[p] = n
+		}
+		ctx.SetBodyString("ok")
+	}
+	paths := [2]string{"/up", "/p"}
+	if vBool("plainFirst") {
+		paths = [2]string{"/p", "/up"}
+	}
+	var lens [2]int
+	var segs [][]byte
+	for i, p := range paths {
+		n := vLen("bodyLen", 0, 11)
+		lens[i] = n
+		body := make([]byte, n)
+		for k := range body {
+			body[k] = 'd'
+		}
+		req := "POST " + p + " HTTP/1.1\r\nHost: a\r\n"
+		if vBool("chunked") {
+			req += "Transfer-Encoding: chunked\r\n\r\n"
+			if n > 0 {
+				const hexd = "0123456789abcdef"
+				req += string(hexd[n]) + "\r\n" + string(body) + "\r\n"
+			}
+			req += "0\r\n\r\n"
+		} else {
+			req += "Content-Length: " + c07Digits(n) + "\r\n\r\n" + string(body)
+		}
+		segs = append(segs, []byte(req))
+	}
+	c := &vsSegConn{segs: segs}
+	s.ServeConn(c)
+	limitOf := func(p string) int {
+		if p == "/up" {
+			return raised
+		}
+		return serverLimit
+	}
+	firstFits := lens[0] <= limitOf(paths[0])
+	secondFits := lens[1] <= limitOf(paths[1])
+	vAssert("nothing-beyond-its-own-limit-is-handed-over", maxHeld["/up"] <= raised && maxHeld["/p"] <= serverLimit)
+	if !firstFits {
+		vAssert("oversized-first-request-ends-the-connection", len(got) == 0 && c.closed == 1)
+		return
+	}
+	vAssert("first-request-within-its-limit-is-dispatched", len(got) >= 1 && got[0] == paths[0])
+	if secondFits {
+		vAssert("second-request-within-its-limit-is-dispatched", len(got) == 2 && got[1] == paths[1])
+	} else {
+		vAssert("second-request-beyond-its-own-limit-is-refused", len(got) == 1 && c.closed == 1)
 	}
 }
